@@ -282,6 +282,35 @@ pub fn run_c11(args: &Args) -> Report {
             rep.sample(format!("sources {:?}, inputs {:?}, recursive={} => {} ; processed {:?}", all_sources, inputs, cfg.recursive, c.imp.verdict, processed));
         }
     }
+    // a scanned directory whose entries are symbolic links: to a source file elsewhere, and (recursive) to a directory with
+    // sources - both are scanned like ordinary entries; the outputs appear beside the real sources
+    if args.shard == 0 {
+        let d = runner.dir.clone();
+        let _ = std::fs::remove_dir_all(&d);
+        std::fs::create_dir_all(d.join("shared/more")).unwrap();
+        std::fs::create_dir_all(d.join("site")).unwrap();
+        std::fs::write(d.join("shared/footer.txt.txtpp"), "footer\n").unwrap();
+        std::fs::write(d.join("shared/more/extra.txt.txtpp"), "extra\n").unwrap();
+        std::fs::write(d.join("site/index.html.txtpp"), "index\n").unwrap();
+        let _ = std::os::unix::fs::symlink("../shared/footer.txt.txtpp", d.join("site/footer.txt.txtpp"));
+        let _ = std::os::unix::fs::symlink("../shared/more", d.join("site/more"));
+        for (recursive, want) in [(true, vec!["site/index.html", "shared/footer.txt", "shared/more/extra.txt"]), (false, vec!["site/index.html", "shared/footer.txt"])] {
+            for o in ["site/index.html", "shared/footer.txt", "shared/more/extra.txt"] {
+                let _ = std::fs::remove_file(d.join(o));
+            }
+            let mut cfg = RunCfg::build_all();
+            cfg.inputs = vec!["site".to_string()];
+            cfg.recursive = recursive;
+            cfg.threads = 2;
+            let o = run_impl(&d, &cfg, &runner.log);
+            rep.count("symlinked-directory-entries");
+            let missing: Vec<&str> = want.iter().filter(|w| !d.join(w).exists()).cloned().collect();
+            if o.verdict != "ok" || !missing.is_empty() {
+                let what = format!("C11: directory `site` with a symbolic link to a source (`site/footer.txt.txtpp` -> ../shared/footer.txt.txtpp) and to a directory of sources (`site/more` -> ../shared/more), recursive={recursive}: verdict `{}`, outputs that were not produced: {:?}", o.verdict, missing);
+                rep.violation("oracle", &what, &format!("# {what}\n"));
+            }
+        }
+    }
     rep.countn("raw-include-of-a-source-file", raw_includes as u64);
     compare_all(&mut rep, &runner, &model, "C11", "C11.out_txtpp, out_ext_txtpp, out_txtpp_ext, named_by_output_finds_its_source");
     runner.cleanup();
